@@ -876,6 +876,7 @@ class Interp:
             memo_ = {}
             S = fcopy(A, memo_)
             self.st = S
+            sym.CTX = S.ranges          # (conditions below are simplified in this branch's own context, not the previous one's)
             if carry is not None:
                 # objects the thunk works on must be the ones of this branch's copy of the state
                 th = (lambda th=th, tr=[fcopy(o, memo_) for o in carry]: th(*tr))
@@ -956,6 +957,27 @@ class Interp:
             if 'sub' in pat: self.bind(pat['sub'], v, place)
             return
         if k in ('Wild', 'Missing', 'Constant', 'Range'): return
+        if k == 'SliceOrArray' and 'prefix' in pat:
+            # `let [a, b] = x.to_le_bytes();` / `[first, rest @ ..]`: elements by position (the length is fixed by the type
+            # for arrays; for slices the match condition has already established it)
+            sv_ = v
+            while isinstance(sv_, RefV): sv_ = sv_.place.get()
+            by_ref = isinstance(v, RefV)
+            if isinstance(sv_, SliceV):
+                r_ = self.slice_segs(sv_)
+                sv_ = SeqV(sv_.seq.elem, r_) if r_ is not None else None
+            if not isinstance(sv_, SeqV): self.top('array pattern on %r' % (v,)); return
+            total = seqlen(sv_.segs)
+            pre, suf = pat.get('prefix', []), pat.get('suffix', [])
+            if total[0] != 'c' and (suf or 'slice' in pat and suf): self.top('array pattern with a suffix on a sequence of symbolic length'); return
+            def elem(i_):
+                r_ = self.seq_get(sv_, i_)
+                return RefV(Cell(r_)) if by_ref and not isinstance(r_, RefV) else r_
+            for i_, q in enumerate(pre): self.bind(q, elem(C(i_)))
+            for j_, q in enumerate(suf): self.bind(q, elem(sub(total, C(len(suf) - j_))))
+            if 'slice' in pat and pat['slice'].get('k') not in ('Wild', None):
+                self.bind(pat['slice'], RefV(Cell(SliceV(sv_, C(len(pre)), sub(total, C(len(suf)))))))
+            return
         if k == 'Deref':
             if isinstance(v, RefV): return self.bind(pat['sub'], v.place.get(), v.place)
             return self.bind(pat['sub'], v, place)
@@ -983,6 +1005,23 @@ class Interp:
             if 'sub' in pat: return self.matches(pat['sub'], v)
             return TRUE
         if k in ('Wild', 'Missing'): return TRUE
+        if k == 'SliceOrArray' and 'prefix' in pat:
+            sv_ = v
+            while isinstance(sv_, RefV): sv_ = sv_.place.get()
+            if isinstance(sv_, SliceV):
+                r_ = self.slice_segs(sv_)
+                sv_ = SeqV(sv_.seq.elem, r_) if r_ is not None else None
+            if not isinstance(sv_, SeqV): return self.top_cond('array pattern on a non-sequence')
+            total = seqlen(sv_.segs)
+            pre, suf = pat.get('prefix', []), pat.get('suffix', [])
+            n_ = len(pre) + len(suf)
+            c = TRUE if pat.get('array') else (cmp('le', C(n_), total) if 'slice' in pat else cmp('eq', total, C(n_)))
+            if c == FALSE: return FALSE
+            for i_, q in enumerate(pre):
+                if q.get('k') not in ('Wild', 'Binding') or 'sub' in q: c = b_and(c, self.matches(q, self.seq_get(sv_, C(i_))))
+            for j_, q in enumerate(suf):
+                if q.get('k') not in ('Wild', 'Binding') or 'sub' in q: c = b_and(c, self.matches(q, self.seq_get(sv_, sub(total, C(len(suf) - j_)))))
+            return c
         if k == 'Deref':
             if isinstance(v, RefV): return self.matches(pat['sub'], v.place.get())
             return self.matches(pat['sub'], v)
@@ -1513,8 +1552,15 @@ class Interp:
                 self.frame().vars = saved
                 if isinstance(g, Top): g = self.top_cond('guard')
                 c = b_and(c, g)
-            if self._diverges(arm['body']) and c not in (TRUE, FALSE):
-                self.guards.append({'cond': bnot(c), 'sp': arm['body'].get('sp'), 'kind': 'panic-arm'})
+            if self._diverges(arm['body']) and c != FALSE:
+                # the arm is reached when its pattern matches and no earlier arm did: the refusal is the negation of that
+                # (a catch-all `_ => panic!()` refuses exactly what the earlier arms do not accept)
+                ok_ = bnot(c)
+                for pc, _ in arms:
+                    if is_term(pc): ok_ = b_or(ok_, pc)
+                if ok_ not in (TRUE, FALSE):
+                    self.guards.append({'cond': ok_, 'sp': arm['body'].get('sp'), 'kind': 'panic-arm'})
+                    self.log.append(('guard', ok_, arm['body'].get('sp')))
             arms.append((c, thunk))
         return self.branch(arms)
 
@@ -1629,6 +1675,24 @@ class Interp:
         """run fn(element) for every element of the iterable, summarising symbolic repetition"""
         itv = it
         while isinstance(itv, RefV): itv = itv.place.get()
+        rg_ = itv.seq if isinstance(itv, IterV) and isinstance(itv.seq, RangeV) else itv
+        if isinstance(rg_, RangeV) and rg_.hi is not None and is_term(rg_.lo) and is_term(rg_.hi) and getattr(self, '_range_splits', 0) < 6:
+            # `for i in 0..n` where n was chosen earlier among constants (`n = if len < 63 {1} else ..`): one evaluation per
+            # case of the innermost undecided choice, each with a constant trip count
+            n_ = rebuild(sub(rg_.hi, rg_.lo), lambda x: None)
+            if n_[0] != 'c' and any(u[0] == 'ite' for u in sym.subterms(n_)):
+                cs = sorted((x for x in sym.cond_atoms(n_) if not any(u[0] == 'ite' for u in sym.subterms(x))), key=sym.key)
+                if cs:
+                    self._range_splits = getattr(self, '_range_splits', 0) + 1
+                    try:
+                        def again():
+                            lo2, hi2 = rebuild(rg_.lo, lambda x: None), rebuild(rg_.hi, lambda x: None)
+                            self.iterate(RangeV(lo2, hi2) if rg_ is itv else IterV(RangeV(lo2, hi2), itv.by_ref, itv.kind, itv.maps, itv.enum), fn, e)
+                            return UNIT
+                        self.branch([(cs[0], again), (TRUE, again)])
+                    finally:
+                        self._range_splits -= 1
+                    return
         if isinstance(itv, IterV) and itv.kind == 'zip':
             # lockstep over two sequences: one side must be fully known (a constant table), the other at least as long
             def known(iv):
@@ -1679,6 +1743,17 @@ class Interp:
                 self._iter_idx = C(k_)
                 fn(TupleV([wa(va), wb(vb)]))
             self._iter_idx = None
+            return
+        if isinstance(itv, IterV) and itv.kind == 'chain':
+            # a.chain(b): the elements of a, then those of b (adaptors applied after the chain see both)
+            inner_fn = fn; maps_ = list(itv.maps)
+            if maps_:
+                if any(m_ == 'enumerate' for m_ in maps_): self.top('enumerate() over a chain', e); return
+                def fn(el, inner_fn=inner_fn, maps_=maps_):
+                    for m_ in maps_:
+                        if isinstance(m_, ClosureV): el = self.call_closure(m_, [el], e)
+                    return inner_fn(el)
+            for p_ in itv.parts: self.iterate(p_, fn, e)
             return
         if isinstance(itv, IterV) and itv.kind in ('option', 'optflat') and not itv.maps:
             # Option::iter(): zero or one element;  .flatten(): the elements of the payload when there is one
@@ -2283,7 +2358,10 @@ def canon_bytes(t):
             root, j = base if base else (src, 0)
             root = canon_bytes(root)
             r = ZERO
-            for k in range(w): r = add(r, ('byte', root, j + k))
+            top_ = rng(root)[1]
+            for k in range(w):
+                if 0 <= rng(root)[0] and top_ < (1 << (8 * (j + k))): continue      # bytes above the value's range are zero
+                r = add(r, ('byte', root, j + k))
             return r
         if x[0] in ('trunc', 'shr', 'and'):
             b = _slice_of(x, 1)
@@ -2325,7 +2403,8 @@ def stored_sum(s):
     for (i, v) in stores:
         if isinstance(i, tuple) and i and i[0] == 'within': return ('S', s)
         if isinstance(i, tuple) and i and i[0] == 'range':
-            r = add(r, sub(S_of(v), ('S', ('slice', st_key(base, hist), i[1], i[2]))))
+            old_ = _old_range_sum(base, hist, i[1], i[2])
+            r = add(r, sub(S_of(v), old_ if old_ is not None else ('S', ('slice', st_key(base, hist), i[1], i[2]))))
             hist.append((i, v)); continue
         old = stored_get(base, hist, i)
         if not (is_term(v) and is_term(old) and is_term(i)): return ('S', ('undecided-store', len(_ST_INTERN)))
@@ -2333,9 +2412,44 @@ def stored_sum(s):
         hist.append((i, v))
     return r
 
+def _old_range_sum(base, hist, lo, hi):
+    """byte-sum of positions [lo, hi) of `base` before a range store, when no earlier store touches them and the
+    positions are constant bytes of the base (a zeroed buffer being filled piece by piece); None otherwise"""
+    if not (is_term(lo) and is_term(hi) and lo[0] == 'c' and hi[0] == 'c'): return None
+    for (i, v) in hist:
+        if isinstance(i, tuple) and i and i[0] == 'range':
+            if not (is_term(i[1]) and is_term(i[2]) and i[1][0] == 'c' and i[2][0] == 'c'): return None
+            if i[1][1] < hi[1] and lo[1] < i[2][1]: return None
+        elif is_term(i) and i[0] == 'c':
+            if lo[1] <= i[1] < hi[1]: return None
+        else: return None
+    pos = 0; total = 0
+    for sg in base:
+        l = seglen(sg)
+        if l[0] != 'c': return None
+        a, b = pos, pos + l[1]; pos = b
+        if b <= lo[1] or a >= hi[1]: continue
+        n_in = min(b, hi[1]) - max(a, lo[1])
+        if sg[0] == 'int' and sg[1][0] == 'c':
+            for k_ in range(max(a, lo[1]) - a, max(a, lo[1]) - a + n_in): total += (sg[1][1] >> (8 * k_)) & 0xff
+        elif sg[0] == 'rep' and sg[2] is None and len(sg[3]) == 1 and sg[3][0][0] == 'int' and sg[3][0][2] == 1 and sg[3][0][1][0] == 'c':
+            total += n_in * sg[3][0][1][1]
+        else: return None
+    return C(total) if pos >= hi[1] else None
+
 def stored_get(base, hist, idx):
     for n in range(len(hist) - 1, -1, -1):
         (i, v) = hist[n]
+        if isinstance(i, tuple) and i and i[0] == 'range' and is_term(i[1]) and is_term(i[2]) and is_term(idx):
+            # an interval write [lo, hi): a position provably outside it is older contents; inside, at a constant place of
+            # constant-width pieces, it is that piece's byte
+            def named_(r_): return isinstance(r_, tuple) and any(u[0] == 'sel' and isinstance(u[1], tuple) and u[1] and u[1][0] == 'st' for u in subterms(r_))
+            if cmp('lt', idx, i[1]) == TRUE or cmp('le', i[2], idx) == TRUE:
+                r_ = stored_get(base, hist[:n], idx)
+                if r_ is not None and not named_(r_): return r_          # (otherwise the position keeps the name it always had)
+            elif i[1][0] == 'c' and idx[0] == 'c' and cmp('lt', idx, i[2]) == TRUE:
+                r_ = stored_get(list(v), [], C(idx[1] - i[1][1]))
+                if r_ is not None and not named_(r_): return r_
         if isinstance(i, tuple) and i and i[0] in ('range', 'within'):
             t = ('sel', st_key(base, hist[:n + 1]), idx); sym.SEL_RANGE[t[1]] = (0, 255); return t
         c = cmp('eq', i, idx)
